@@ -712,7 +712,7 @@ fn case_strategy() -> impl Strategy<Value = Case> {
 
 pub fn check(ctx: &Ctx) -> Vec<PartReport> {
     let known = ctx.known.is_known("C12", KF_DELEGATION_EXTRAS);
-    let n = ctx.cases(60, 900);
+    let n = ctx.cases(120, 1200);
     let mut out = vec![run_part(
         ctx,
         PartSpec {
